@@ -739,6 +739,22 @@ func targetedShortWrite(c *core.Ctx, variant int) {
 
 		return
 	}
+	// the write log: whatever the client makes of a short count, every datagram it hands to the connection is the request,
+	// whole, and there are at most n+1 of them
+	ws := r.conn.Writes()
+	for k, wr := range ws {
+		if !bytes.Equal(wr.Bytes, t.Raw) {
+			c.Violate("write-differs", "write-differs:after-short-write", map[string]interface{}{"options": o.String(),
+				"problem": fmt.Sprintf("write %d of %d carries %d bytes, the request has %d (first difference at byte %d)", k, len(ws), len(wr.Bytes), len(t.Raw), firstDiff(wr.Bytes, t.Raw)), "ledger": r.describe()})
+
+			return
+		}
+	}
+	if limit := r.maxAttempts() + 1; len(ws) > limit {
+		c.Violate("too-many-writes", "too-many-writes:after-short-write", map[string]interface{}{"options": o.String(), "writes": len(ws), "limit": limit, "ledger": r.describe()})
+
+		return
+	}
 	c.Count("targeted.short_write", 1)
 }
 
